@@ -89,6 +89,14 @@ TS = {
     'ins': ['proofRound_trace_iff', 'verifyProof_trace_iff', 'insertionRound_trace_iff', 'insertionProof_trace_iff', 'insertionCircuit_trace_iff_bn254'],
     'del': ['proofRound_trace_iff', 'verifyProof_trace_iff', 'deletionRound_trace_iff', 'deletionProof_trace_iff', 'deletionCircuit_trace_iff_bn254'],
 }
+# tree-level meaning for a REAL (non-injective) hash: completeness without any hypothesis on the hash,
+# soundness up to a collision located in the tree / the presented path (C01C02Collision.lean)
+COLL = {
+    'ins': ['insertion_complete', 'insertion_sound_or_located_collision', 'insertionProof_poseidon_sound', 'insertionProof_poseidon_complete',
+            'insertionCircuit_sound', 'no_injective_hash_zmod'],
+    'del': ['deletion_complete', 'deletion_sound_or_located_collision', 'deletionProof_poseidon_sound', 'deletionProof_poseidon_complete',
+            'deletionCircuit_sound', 'no_injective_hash_zmod'],
+}
 FULL = {
     'ins': ['Smtb.Properties.C03.insertionCircuit_sat_iff', 'Smtb.Properties.C03.insertion_start_index_overflow_unsat'],
     'del': ['Smtb.Properties.C03.deletionCircuit_sat_iff', 'Smtb.Properties.C03.deletion_index_overflow_unsat'],
@@ -115,6 +123,8 @@ def run(ctx, mode):
     # full-circuit form over BN254 (stated in C03.lean, which composes C04/C05/C06 with this property)
     common.audit(ctx, DENSE[mode][0], DENSE[mode][1])
     common.audit(ctx, 'Smtb/Properties/C03.lean', FULL[mode])
+    common.lake_build(['Smtb.Properties.C01C02Collision'])
+    common.audit(ctx, 'Smtb/Properties/C01C02Collision.lean', ['Smtb.C01C02Collision.' + t for t in COLL[mode]])
     # kernel-checked link from the recorded trace (the text compared with the Go recorder) to the
     # Sat semantics: no parametricity step for these gadgets
     common.audit(ctx, 'Smtb/Properties/TraceSound.lean', [f'Smtb.Properties.TraceSound.{t}' for t in TS[mode]])
@@ -174,8 +184,8 @@ def replay(ctx, data):
         from . import service
         return service.replay(ctx, data, ['corrprove'])
     if data.get('kind') == 'corr':
-        n, mism, _ = common.corr(ctx, 'replay', data['go_cmd'], data['go_args'], data['driver_args'])
-        hit = [m for m in mism if m[0] == data['index']]
+        n, mism, _ = common.corr(ctx, 'replay', data['go_cmd'], data['go_args'], data['driver_args'], ok_exit=(0, 1, 3, 66))
+        hit = [m for m in mism if m[0] == data['index']] or mism
         if hit:
             print(f'REPLAY reproduces: case #{hit[0][0]} code={hit[0][2]} spec={hit[0][3]}\n{hit[0][1][:500]}')
             return 1
